@@ -8,7 +8,8 @@
    fresh uids ([ok_op]); [trun_reaches] ties it to the fold over an operation list. *)
 From Coq Require Import List NArith ZArith QArith Bool.
 From Similari Require Import Base.Num Model.Constraints Model.Tracker
-     Proofs.TrackerBase Proofs.TrackerPredict Proofs.TrackerInv Proofs.TrackerC01 Proofs.TrackerSolver.
+     Proofs.TrackerBase Proofs.TrackerPredict Proofs.TrackerInv Proofs.TrackerC01 Proofs.TrackerSolver
+     Model.Assign Proofs.AssignProofs Proofs.TrackerAssign.
 Import ListNotations.
 Open Scope N_scope.
 
@@ -94,6 +95,37 @@ End C01.
 Theorem default_solver_sound : solver_sound best_matching.
 Proof. exact best_matching_sound. Qed.
 
+(* LINK to the verified model of SortVoting::winners (C02: Model/Assign.v).  [assign_solver km] runs the REAL padded-matrix
+   construction, the oracle km (kuhn_munkres) and the decode loop on the call's pairs (candidate i |-> id 2i+1, track column
+   j |-> id 2j+2: non-zero and disjoint, as the random candidate ids and the counter ids of the code are).  If km returns an
+   optimal assignment of every matrix built by pad_matrix - the hypothesis of C02's sort_voting_is_gated_maximum - the
+   solver satisfies the interface, hence every theorem above holds for the tracker running the real voting. *)
+Theorem assign_solver_sound :
+  forall km : matrix -> list nat, km_optimal km -> solver_sound (assign_solver km).
+Proof. exact assign_solver_sound_lemma. Qed.
+
+(* for thr > 0 and streams that mention only the declared columns (always the case in the tracker) the guard of
+   [assign_solver] is passed: the solver is [sort_winners] itself, read back per candidate *)
+Theorem assign_solver_is_voting_model :
+  forall km tag thr n cols ps,
+    (0 < thr)%Z -> (forall i j w, In (i, j, w) ps -> (j < length cols)%nat) ->
+    assign_solver km tag thr n cols ps =
+    match sort_winners km thr n (length cols) (enc ps) with
+    | Some W => winners_to_cols n W
+    | None => repeat None n
+    end.
+Proof. exact assign_solver_is_raw. Qed.
+
+(* e.g.: with the real voting no two detections of a call receive the same track id *)
+Corollary predict_ids_nodup_real_voting :
+  forall G D2R c (km : matrix -> list nat), km_optimal km ->
+    forall st scene dets recs st',
+      reach G D2R (assign_solver km) c st -> ok_op st (Predict scene dets) ->
+      tstep G D2R (assign_solver km) c st (Predict scene dets) = (ORecords recs, st') -> NoDup (map r_id recs).
+Proof.
+  intros G D2R c km Hkm. exact (predict_ids_nodup G D2R (assign_solver km) c (assign_solver_sound km Hkm)).
+Qed.
+
 (* Non-vacuity: a crowded call - 3 mutually overlapping detections (every one gated to both tracks) over 2
    live tracks.  Both branches (continue / start) are exercised, the ids are distinct, the new id is fresh. *)
 Definition ex_G (cand : N) (dets : list N) : option Z :=
@@ -114,3 +146,9 @@ Example c01_nonvacuous :
   /\ next_id st = 3
   /\ count_optimal (thr ex_cfg) 3 [(0%nat, 0%nat, 900000%Z); (0%nat, 1%nat, 500000%Z); (1%nat, 0%nat, 600000%Z); (1%nat, 1%nat, 800000%Z); (2%nat, 0%nat, 700000%Z); (2%nat, 1%nat, 700000%Z)] = 1.
 Proof. vm_compute. repeat split; reflexivity. Qed.
+
+(* the same history through the voting model (padded 3 x 5 matrix, brute-force optimum as kuhn_munkres): same records *)
+Example c01_nonvacuous_real_voting :
+  fst (trun ex_G (fun _ _ => 0%Q) (assign_solver km_brute) ex_cfg [Predict 7 [ex_D 1; ex_D 2]; Predict 7 [ex_D 3; ex_D 4; ex_D 5]])
+  = fst (trun ex_G (fun _ _ => 0%Q) best_matching ex_cfg [Predict 7 [ex_D 1; ex_D 2]; Predict 7 [ex_D 3; ex_D 4; ex_D 5]]).
+Proof. vm_compute. reflexivity. Qed.
